@@ -163,7 +163,7 @@ func TestC15FindLookups(t *testing.T) {
 			ff := &gtab.Features{Required: gtab.FeatureIndex(rapid.SampledFrom([]int{0xFFFF, 0xFFFF, 0, 1, 2, 7, 9, 300}).Draw(t, "req"))}
 			k := rapid.IntRange(0, 6).Draw(t, "nOpt")
 			for j := 0; j < k; j++ {
-				ff.Optional = append(ff.Optional, gtab.FeatureIndex(rapid.OneOf(rapid.IntRange(0, 9), rapid.SampledFrom([]int{8, 9, 1000})).Draw(t, "opt")))
+				ff.Optional = append(ff.Optional, gtab.FeatureIndex(rapid.OneOf(rapid.IntRange(0, 9), rapid.SampledFrom([]int{8, 9, 1000, 0xFFFF})).Draw(t, "opt")))
 			}
 			if shareA >= 0 && rapid.IntRange(0, 3).Draw(t, "listsShared") > 0 {
 				at := rapid.IntRange(0, len(ff.Optional)).Draw(t, "sharedAt")
@@ -272,6 +272,26 @@ func TestC15FindLookups(t *testing.T) {
 					probes := []map[string]bool{include, nil, {}}
 					for _, tag := range featurePool {
 						probes = append(probes, map[string]bool{tag: true})
+					}
+					// and not on whether the table is asked before or after it
+					// was written and read (when every language system
+					// survives under its tag)
+					sameKeys := len(plain.ScriptList) == len(info.ScriptList)
+					for k := range info.ScriptList {
+						if _, ok := plain.ScriptList[k]; !ok {
+							sameKeys = false
+						}
+					}
+					if sameKeys {
+						for _, k := range keys {
+							for _, inc := range probes {
+								a, b := info.FindLookups(k, inc), plain.FindLookups(k, inc)
+								if !eqLookups(a, b) {
+									t.Fatalf("feature selection changes when the table is written and read: FindLookups(%s, %v) = %v before, %v after (language system before: %+v, after: %+v)\n%s", k, inc, a, b, info.ScriptList[k], plain.ScriptList[k], ctx())
+								}
+							}
+						}
+						labels = append(labels, "file-same-language-systems")
 					}
 					for _, inc := range probes {
 						a, b := plain.FindLookups(lang, inc), shared.FindLookups(lang, inc)
